@@ -33,8 +33,8 @@ func (m msg) String() string { return fmt.Sprintf("c%d:%s(%d)", m.Conn, m.Kind, 
 
 var startKinds = []string{"start", "start", "start", "start", "start-keylen-0", "start-keylen-1", "start-keylen-31", "start-keylen-33", "start-no-key", "start-method-unknown"}
 var finishKinds = []string{"finish-genuine", "finish-genuine", "finish-genuine", "finish-wrong-key", "finish-stale", "finish-reordered-material", "finish-replayed", "finish-unknown-name",
-	"finish-accessory-name", "finish-genuine-late", "finish-genuine-late", "finish-seal-zero-key", "finish-seal-random-key", "finish-seal-wrong-nonce", "finish-short", "finish-absent", "finish-garbage-tlv", "finish-empty-signature"}
-var otherKinds = []string{"unknown-step", "empty-body", "garbage", "replay-whole-exchange", "replay-whole-exchange"}
+	"finish-accessory-name", "finish-retired-key", "finish-retired-key", "finish-genuine-late", "finish-genuine-late", "finish-seal-zero-key", "finish-seal-random-key", "finish-seal-wrong-nonce", "finish-short", "finish-absent", "finish-garbage-tlv", "finish-empty-signature"}
+var otherKinds = []string{"unknown-step", "empty-body", "garbage", "replay-whole-exchange", "replay-whole-exchange", "rekey-stored", "rekey-stored"}
 
 type exchange struct {
 	v  *refctl.VerifyState
@@ -60,6 +60,7 @@ type connState struct {
 type world struct {
 	l        *fixture.L2
 	stored   []*refctl.Controller // controllers paired with the accessory
+	retired  []*refctl.Controller // identities whose stored key was replaced: their old keys are no longer paired
 	attacker *refctl.Controller   // never stored
 	accLTPK  []byte
 	accID    string
@@ -168,6 +169,16 @@ func (w *world) send(m msg) (label string, err error) {
 				genuine = len(w.stored) > 0
 				label = "finish-genuine"
 			}
+		case "finish-retired-key":
+			// correct in every respect, but signed with a key that was replaced in the pairing database
+			if len(w.retired) > 0 {
+				rc := w.retired[m.Arg%len(w.retired)]
+				plain = sign(rc, rc.ID, st.EphPublic, st.AccEph)
+				label = "finish-retired-key"
+			} else {
+				plain = sign(w.attacker, ctl.ID, st.EphPublic, st.AccEph)
+				label = "finish-retired-key(none-retired)"
+			}
 		case "finish-wrong-key":
 			plain = sign(w.attacker, ctl.ID, st.EphPublic, st.AccEph)
 		case "finish-stale":
@@ -220,6 +231,22 @@ func (w *world) send(m msg) (label string, err error) {
 		if !haveExchange && !strings.Contains(label, "(") {
 			label += "(no-exchange)"
 		}
+	case m.Kind == "rekey-stored":
+		// the owner pairs an existing identifier again with a new long-term key (overwrites the stored key)
+		if len(w.stored) == 0 {
+			return "rekey-stored(nothing-stored)", nil
+		}
+		i := m.Arg % len(w.stored)
+		old := w.stored[i]
+		w.starts++
+		nc := refctl.NewController(old.ID, append([]byte{byte(w.starts), byte(m.Arg)}, w.seed...))
+		// a look-up before the overwrite, as every pair-verify does
+		w.l.DB.EntityWithName(old.ID)
+		w.l.DB.SaveEntity(db.NewEntity(nc.ID, nc.LTPK, nil))
+		w.retired = append(w.retired, old)
+		w.stored[i] = nc
+		cs.uncertain = cs.uncertain || cs.cur != nil
+		return "rekey-stored", nil
 	case m.Kind == "replay-whole-exchange":
 		// an eavesdropper replays both plaintext messages of a genuine exchange, verbatim, on ANOTHER connection
 		var rec *recordedExchange
@@ -404,7 +431,7 @@ func TestC03Prop(t *testing.T) {
 				opened[ms[i].Conn] = false
 			} else if strings.HasPrefix(l, "start-") {
 				cls = append(cls, l)
-			} else if strings.HasPrefix(l, "replay-whole-exchange") {
+			} else if strings.HasPrefix(l, "replay-whole-exchange") || l == "rekey-stored" {
 				cls = append(cls, fmt.Sprintf("%s/stored=%d", l, nstored))
 			}
 		}
@@ -447,6 +474,7 @@ func TestC03Regress(t *testing.T) {
 		{"stale signature", 1, []msg{{0, "start", 1}, {0, "finish-unknown-name", 0}, {0, "start", 2}, {0, "finish-stale", 0}}},
 		{"replay of a genuine finish on another connection", 1, []msg{{0, "start", 0}, {0, "finish-genuine", 0}, {1, "start", 5}, {1, "finish-replayed", 0}}},
 		{"short finish, then the correct finish for the same start (out of order)", 1, []msg{{0, "start", 0}, {0, "finish-short", 3}, {0, "finish-genuine-late", 0}}},
+		{"finish signed with a long-term key that was replaced in the database", 1, []msg{{0, "start", 0}, {0, "finish-genuine", 0}, {0, "rekey-stored", 0}, {1, "start", 1}, {1, "finish-retired-key", 0}, {1, "start", 2}, {1, "finish-genuine", 0}}},
 		{"replay after a rejected start", 1, []msg{{0, "start", 0}, {0, "finish-genuine", 0}, {0, "start-keylen-0", 0}, {0, "finish-replayed", 0}}},
 		{"empty signature", 2, []msg{{0, "start", 0}, {0, "finish-empty-signature", 1}}},
 	}
